@@ -202,10 +202,11 @@ macro_rules! explorer {
 
             fn fresh<'s>(which: u8, partial: bool, src: &'s $Src) -> Node<'s> {
                 match (which, partial) {
-                    (0, false) => Node::A(Lexer::new(src)),
+                    // (every public way of making a lexer is used somewhere)
+                    (0, false) => Node::A(<$A as Logos>::lexer(src)),
                     (0, true) => Node::A(Lexer::new_partial(src)),
-                    (_, false) => Node::B(Lexer::new(src)),
-                    (_, true) => Node::B(Lexer::new_partial(src)),
+                    (_, false) => Node::B(<$B as Logos>::lexer_with_extras(src, 0)),
+                    (_, true) => Node::B(Lexer::partial_with_extras(src, 0)),
                 }
             }
 
